@@ -564,3 +564,118 @@ func theTargetOfACompoundAssignmentIsReadBeforeTheValueIsEvaluated(c *core.Ctx) 
 	}
 	c.Stat("value_compiles_in_operator_nodes", n)
 }
+
+// ---------------------------------------------------------------------------
+// theCursorIsComparedWithTheLengthBeforeTheCharacterIsRead (C03): the lexer
+// reads its input through cursor fields (position, nextPosition) that run up
+// to, and stand at, len(characters) when the input is used up.  An element
+// read `l.characters[l.<cursor>]` is on the in-range side of a comparison of
+// that same cursor with len(l.characters) in the same function; without it
+// an input that ends where this function looks one ahead (a block comment
+// left open after a `*`) indexes past the end, and the panic leaves
+// parser.Parse and risor.Eval as a Go panic, not as an error.
+func theCursorIsComparedWithTheLengthBeforeTheCharacterIsRead(c *core.Ctx) {
+	p := c.P
+	lexT := core.MustType(p.Pkg("lexer"), "Lexer")
+	chIdx := fieldIdxByName(lexT, "characters")
+	if chIdx < 0 {
+		return
+	}
+	isLen := func(v ssa.Value) bool {
+		cl, ok := v.(*ssa.Call)
+		if !ok {
+			return false
+		}
+		b, ok := cl.Call.Value.(*ssa.Builtin)
+		if !ok || b.Name() != "len" || len(cl.Call.Args) != 1 {
+			return false
+		}
+		_, ok = loadOfField(cl.Call.Args[0], lexT, chIdx)
+		return ok
+	}
+	n := 0
+	for _, fn := range repoFns(p, "lexer") {
+		k := 0
+		for _, b := range fn.Blocks {
+			for _, in := range b.Instrs {
+				ia, ok := in.(*ssa.IndexAddr)
+				if !ok {
+					continue
+				}
+				if _, ok := loadOfField(ia.X, lexT, chIdx); !ok {
+					continue
+				}
+				cur, ok := loadOfAnyFieldOf(ia.Index, lexT)
+				if !ok {
+					continue // indexed by a local: decided by the interval rules
+				}
+				n++
+				k++
+				guarded := false
+				for _, gb := range fn.Blocks {
+					if len(gb.Instrs) == 0 || len(gb.Succs) != 2 {
+						continue
+					}
+					iff, ok := gb.Instrs[len(gb.Instrs)-1].(*ssa.If)
+					if !ok {
+						continue
+					}
+					bo, ok := iff.Cond.(*ssa.BinOp)
+					if !ok {
+						continue
+					}
+					op, x, y := bo.Op, bo.X, bo.Y
+					if isLen(x) { // len OP cursor  ->  cursor OP' len
+						x, y = y, x
+						switch op {
+						case token.LSS:
+							op = token.GTR
+						case token.GTR:
+							op = token.LSS
+						case token.LEQ:
+							op = token.GEQ
+						case token.GEQ:
+							op = token.LEQ
+						}
+					}
+					if !isLen(y) {
+						continue
+					}
+					f2, ok := loadOfAnyFieldOf(x, lexT)
+					if !ok || f2.Field != cur.Field {
+						continue
+					}
+					var inRange *ssa.BasicBlock
+					switch op {
+					case token.LSS:
+						inRange = gb.Succs[0]
+					case token.GEQ:
+						inRange = gb.Succs[1]
+					default:
+						continue
+					}
+					if len(inRange.Preds) == 1 && inRange.Dominates(b) {
+						guarded = true
+					}
+				}
+				fname := fieldNameOf(lexT, cur.Field)
+				c.Check(guarded, core.SSAName(fn)+"|characters[l."+fname+"]|behind-comparison-with-len|"+sprintf("%d", k), p.Pos(ia.Pos()),
+					fn.Name()+" reads characters[l."+fname+"]"+ife(guarded, " on the in-range side of a comparison of l."+fname+" with len(l.characters)", " without having compared l."+fname+" with len(l.characters): when the input ends here the read is past the end, and the panic leaves Parse and Eval as a Go panic"))
+			}
+		}
+	}
+	c.Stat("cursor_indexed_reads", n)
+}
+
+// loadOfAnyFieldOf: v is the load of a field (of any type) of a value of type nt.
+func loadOfAnyFieldOf(v ssa.Value, nt *types.Named) (*ssa.FieldAddr, bool) {
+	u, ok := v.(*ssa.UnOp)
+	if !ok || u.Op != token.MUL {
+		return nil, false
+	}
+	fa, ok := u.X.(*ssa.FieldAddr)
+	if !ok || core.NamedOf(fa.X.Type()) != nt {
+		return nil, false
+	}
+	return fa, true
+}
